@@ -304,7 +304,7 @@ Qed.
 
 Lemma no_offset_no_write : forall a local stream t chunks,
   let r := download_session a local false stream t chunks in
-  d_local r = local /\ d_state r = DIncomplete /\ d_offset r = None.
+  d_local r = local /\ d_state r = DWedgedInit /\ d_offset r = None.
 Proof. intros. subst r. unfold download_session, download_core. now cbn. Qed.
 
 (* ---- pair / retry ----------------------------------------------------------------------------- *)
@@ -392,16 +392,19 @@ Proof. exists [], [], [], []. split; [apply prefix_nil|]. vm_compute. discrimina
 
 (* ---- terminal states --------------------------------------------------------------------------- *)
 
-Lemma terminal_partial : forall fsz local ok stream t chunks,
-  d_state (download_session (Some fsz) local ok stream t chunks) <> DWedged.
+Definition d_terminal (s : dstate) : Prop := s = DComplete \/ s = DIncomplete \/ s = DFailedCancelled.
+
+Lemma terminal_partial : forall fsz local stream t chunks,
+  d_terminal (d_state (download_session (Some fsz) local true stream t chunks)).
 Proof.
-  intros. unfold download_session, download_core. destruct ok; cbn [negb]; [|cbn; discriminate].
-  destruct (recv _ _ 0). cbn. repeat destr_if; discriminate.
+  intros. unfold d_terminal, download_session, download_core. cbn [negb].
+  destruct (recv _ _ 0). cbn. repeat destr_if; auto.
 Qed.
 
-Lemma terminal_refuted : exists a local ok stream t chunks,
-  d_state (download_session a local ok stream t chunks) = DWedged.
-Proof. exists None, [], true, [], TEof, []. reflexivity. Qed.
+Lemma terminal_refuted :
+  (exists local stream t chunks, d_state (download_session None local true stream t chunks) = DWedged) /\
+  (exists a local stream t chunks, d_state (download_session a local false stream t chunks) = DWedgedInit).
+Proof. split; [exists [], [], TEof, []|exists (Some 1), [], [], TEof, []]; reflexivity. Qed.
 
 (* ---- upload ------------------------------------------------------------------------------------- *)
 
@@ -429,6 +432,7 @@ Lemma upload_wire_prefix : forall src fsz o grant cut pc,
   prefix (u_wire (upload_session src fsz (Some o) grant cut pc)) (dropN o src).
 Proof.
   intros. unfold upload_session, upload_core.
+  destruct (N.leb 9223372036854775808 o); [apply prefix_nil|].
   destruct (send_loop (chop_all grant (dropN o src)) cut 0) as [w ok] eqn:E.
   destruct (send_loop_prefix _ _ _ _ _ E) as [rest Hr].
   assert (prefix (concat w) (dropN o src)).
@@ -444,6 +448,7 @@ Lemma complete_sound_upload : forall src fsz off grant cut pc,
 Proof.
   intros src fsz off grant cut pc. unfold upload_session, upload_core.
   destruct off as [o|]; [|cbn; discriminate].
+  destruct (N.leb 9223372036854775808 o); [cbn; discriminate|].
   destruct (send_loop (chop_all grant (dropN o src)) cut 0) as [w ok] eqn:E.
   destruct ok; cbn [negb]; [|cbn; discriminate].
   destruct pc; cbn [negb]; [|cbn; discriminate]. cbn.
@@ -458,18 +463,40 @@ Lemma upload_grant_irrelevant : forall src fsz off g1 g2 pc,
   u_wire r1 = u_wire r2 /\ u_state r1 = u_state r2 /\ u_bt r1 = u_bt r2.
 Proof.
   intros src fsz off g1 g2 pc. unfold upload_session, upload_core. destruct off as [o|]; [|now cbn].
+  destruct (N.leb 9223372036854775808 o); [now cbn|].
   rewrite !send_loop_nocut, !chop_all_concat. cbn [negb]. destruct pc; cbn; auto.
 Qed.
 
 (* honest pair, no fault: the uploader ends COMPLETE having sent exactly the remainder *)
-Lemma pair_upload_complete : forall src local grant, prefix local src ->
+Lemma pair_upload_complete : forall src local grant, prefix local src -> len src < 2 ^ 63 ->
   u_state (pair_upload src local NoFault grant) = UComplete /\
   local ++ u_wire (pair_upload src local NoFault grant) = src.
 Proof.
-  intros src local grant H. unfold pair_upload, upload_session, upload_core.
+  intros src local grant H Hs. unfold pair_upload, upload_session, upload_core.
+  pose proof (prefix_len _ _ H). pose proof (len_nonneg local).
+  change (2 ^ 63) with 9223372036854775808 in Hs.
+  destruct (N.leb_spec 9223372036854775808 (Z.to_N (len local))); [lia|].
   rewrite send_loop_nocut, chop_all_concat. cbn [negb]. cbn.
   rewrite <- (prefix_split _ _ H). split; [|reflexivity].
-  pose proof (rest_len _ _ H). pose proof (len_nonneg local).
+  pose proof (rest_len _ _ H).
   replace (len src =? Z.of_N (Z.to_N (len local)) + len (dropN (Z.to_N (len local)) src)) with true by lia.
   reflexivity.
 Qed.
+
+Definition u_terminal (s : ustate) : Prop := s = UComplete \/ s = UFailed \/ s = UQueued.
+
+(* the uploader ends in a terminal state when the offset is below 2^63 and the peer closes *)
+Lemma upload_terminal_partial : forall src fsz off grant cut,
+  match off with Some o => (o < 2 ^ 63)%N | None => True end ->
+  u_terminal (u_state (upload_session src fsz off grant cut true)).
+Proof.
+  intros src fsz off grant cut H. unfold u_terminal, upload_session, upload_core.
+  destruct off as [o|]; [|cbn; auto].
+  change (2 ^ 63)%N with 9223372036854775808%N in H.
+  destruct (N.leb_spec 9223372036854775808 o); [lia|].
+  destruct (send_loop _ cut 0) as [w ok]. destruct ok; cbn; [destr_if|]; auto.
+Qed.
+
+Lemma upload_terminal_refuted : exists src fsz o grant cut pc,
+  u_state (upload_session src fsz (Some o) grant cut pc) = UWedged.
+Proof. exists [], 0, 9223372036854775808%N, 1%N, None, true. reflexivity. Qed.
